@@ -209,12 +209,16 @@ EVEN = validated(_is_even, name="even")
 class Leaf:
     x: int = 0
     ys: List[int] = []
+    def __bool__(self):   # a container-like value: FALSY while "empty" (x == 0) - truthiness must never stand in for presence
+        return bool(self.x)
 
 @spec_class(key="key")
 class Keyed:
     key: str
     n: int = 0
     zs: List[int] = []
+    def __len__(self):    # likewise falsy while n == 0
+        return self.n if isinstance(self.n, int) and self.n > 0 else 0
 
 @spec_class(frozen=True)
 class FLeaf:
@@ -679,7 +683,17 @@ def t_mutret(v):
     return _inc_value(v)
 
 
-TRANSFORMS = {"shallow": t_shallow, "mutret": t_mutret, "inc": t_inc, "bad": t_bad, "missing": t_missing, "raise": t_raise, "same": t_same, "ident": t_ident, "eqbad": t_eqbad}
+def t_pin(v):
+    """sets the nested attribute to a fixed value, whatever it was (does not commute with an attribute transform of it)"""
+    CB.hit("transform")
+    if hasattr(v, "with_x"):
+        return v.with_x(10)
+    if hasattr(v, "with_n"):
+        return v.with_n(10)
+    return _inc_value(v)
+
+
+TRANSFORMS = {"pin": t_pin, "shallow": t_shallow, "mutret": t_mutret, "inc": t_inc, "bad": t_bad, "missing": t_missing, "raise": t_raise, "same": t_same, "ident": t_ident, "eqbad": t_eqbad}
 
 
 # ------------------------------------------------------------------------------------------------
